@@ -197,7 +197,9 @@ func histOracle(h *eng.History, o *eng.Obs) []hx.Violation {
 			add("C02:panic", fmt.Sprintf("step %d panicked: %s", i, so.Panic))
 		}
 		op := s.Op
-		if op != nil && so.Outcome == "ok" && !op.Flags.IsDry() && so.Panic == "" {
+		// the property's premise: the cluster accepted every request of THIS operation (earlier operations may
+		// have failed in any way); a rejected request inside a successful operation is C03's subject (K7)
+		if op != nil && so.Outcome == "ok" && !op.Flags.IsDry() && so.Panic == "" && op.KFault == nil {
 			// the release's manifests and hooks: every revision on record before or after, and what was rendered now
 			mine := map[string]bool{}
 			for _, l := range [][]eng.LedgerRow{prevLed, so.Ledger} {
